@@ -20,5 +20,6 @@ HIST_PROBES.update({
  'OFF_tsd_queue': 'offsetof(struct dispatch_tsd, dispatch_queue_key)', 'OFF_tsd_frame': 'offsetof(struct dispatch_tsd, dispatch_frame_key)', 'OFF_tsd_basepri': 'offsetof(struct dispatch_tsd, dispatch_basepri_key)',
  'OFF_tsd_context': 'offsetof(struct dispatch_tsd, dispatch_context_key)', 'OFF_tsd_deferred': 'offsetof(struct dispatch_tsd, dispatch_deferred_items_key)', 'OFF_tsd_wlh': 'offsetof(struct dispatch_tsd, dispatch_wlh_key)',
  'ATTR_PRIO_COUNT': 'DISPATCH_QUEUE_ATTR_PRIO_COUNT', 'ATTR_QOS_COUNT': 'DISPATCH_QUEUE_ATTR_QOS_COUNT', 'SZ_dic': 'sizeof(struct dispatch_invoke_context_s)', 'INVOKE_WORKER_FLAGS': 'DISPATCH_INVOKE_WORKER_DRAIN | DISPATCH_INVOKE_REDIRECTING_DRAIN', 'SZ_attr': 'sizeof(struct dispatch_queue_attr_s)',
+ 'OFF_ds_refs_h': 'offsetof(struct dispatch_source_s, ds_refs)', 'OFF_du_state': 'offsetof(struct dispatch_source_refs_s, du_state)',
  'SZ_vtable': 'sizeof(struct dispatch_lane_vtable_s)', 'OFF_vt_wakeup': 'offsetof(struct dispatch_lane_vtable_s, _os_obj_vtable.dq_wakeup)', 'OFF_vt_push': 'offsetof(struct dispatch_lane_vtable_s, _os_obj_vtable.dq_push)',
 })
